@@ -1,11 +1,140 @@
 //! Projections of a compilation used by property C03 (engine `compile`, projection names `c03:<name>`).
+//!
+//! `c03:bind`: per file (joined by `|`), for every written type reference / base interface / enum underlying type
+//! in element-path order (paths as in Model/Print.lean), `path=<bound>[directives]` joined by `;`, where
+//! `<bound>` = `prim(kw)` | `def(kind,hex module-scoped id)` | `anon(seq|dict|result)` | `unpatched(hex id)` and
+//! the directives are those of the attributes the reference carries (written, then inherited through aliases);
+//! then `;find:retrieve=ok` when every definition, field, enumerator and operation is returned by
+//! `Ast::find_element::<dyn Entity>(parser_scoped_identifier)` (else `retrieve=fail(hex ids, sorted)`),
+//! then ` diags=<sorted multiset of codes>`.
+//! `c03:find`: the same without the ` diags=` part.
 #![allow(unused_imports, dead_code)]
 use crate::compile::*;
+use slicec::ast::node::Node;
 use slicec::compilation_state::CompilationState;
 use slicec::grammar::*;
+use slicec::slice_file::{SliceFile, Span};
 use slicec::slice_options::SliceOptions;
 
 pub fn project(state: CompilationState, options: SliceOptions, name: &str) -> String {
-    let _ = (&state, &options);
-    format!("unknown-projection:c03:{}", name)
+    match name {
+        "bind" => bind(state, options),
+        "find" => find(state),
+        _ => format!("unknown-projection:c03:{}", name),
+    }
+}
+
+fn dirs(attrs: &[&Attribute]) -> String {
+    let v: Vec<String> = attrs.iter().map(|a| attr_parts(a).0).collect();
+    format!("[{}]", v.join(","))
+}
+
+/// `inner` was written inside `outer` (as opposed to an anonymous type reached through a type alias)
+fn written_inside(outer: &Span, inner: &Span) -> bool {
+    outer.file == inner.file
+        && (inner.start.row, inner.start.col) >= (outer.start.row, outer.start.col)
+        && (inner.end.row, inner.end.col) <= (outer.end.row, outer.end.col)
+}
+
+fn type_ref(out: &mut Vec<String>, path: &str, t: &TypeRef) {
+    match &t.definition {
+        TypeRefDefinition::Unpatched(id) => out.push(format!("{}=unpatched({}){}", path, hs(&id.value), dirs(&t.attributes()))),
+        TypeRefDefinition::Patched(_) => {
+            let bound = match t.definition().concrete_type() {
+                Types::Struct(s) => format!("def(struct,{})", hs(&s.module_scoped_identifier())),
+                Types::Enum(s) => format!("def(enum,{})", hs(&s.module_scoped_identifier())),
+                Types::CustomType(s) => format!("def(custom,{})", hs(&s.module_scoped_identifier())),
+                Types::Primitive(p) => format!("prim({})", p.kind()),
+                Types::Sequence(_) => "anon(seq)".to_string(),
+                Types::Dictionary(_) => "anon(dict)".to_string(),
+                Types::ResultType(_) => "anon(result)".to_string(),
+            };
+            out.push(format!("{}={}{}", path, bound, dirs(&t.attributes())));
+            let mut sub = |suffix: &str, c: &TypeRef, out: &mut Vec<String>| {
+                if written_inside(&t.span, &c.span) { type_ref(out, &format!("{}.{}", path, suffix), c); }
+            };
+            match t.definition().concrete_type() {
+                Types::Sequence(s) => sub("e", &s.element_type, out),
+                Types::Dictionary(d) => { sub("k", &d.key_type, out); sub("v", &d.value_type, out); }
+                Types::ResultType(r) => { sub("s", &r.success_type, out); sub("f", &r.failure_type, out); }
+                _ => {}
+            }
+        }
+    }
+}
+
+fn file_bind(f: &SliceFile) -> String {
+    let mut out = vec![];
+    for (j, d) in f.contents.iter().enumerate() {
+        let p = format!("d{}", j);
+        match d {
+            Definition::Struct(x) => {
+                let s = x.borrow();
+                for (k, fl) in s.fields().iter().enumerate() { type_ref(&mut out, &format!("{}.f{}.t", p, k), &fl.data_type); }
+            }
+            Definition::Interface(x) => {
+                let s = x.borrow();
+                for (k, b) in s.bases.iter().enumerate() {
+                    let bound = match &b.definition {
+                        TypeRefDefinition::Patched(_) => format!("def(interface,{})", hs(&b.definition().module_scoped_identifier())),
+                        TypeRefDefinition::Unpatched(id) => format!("unpatched({})", hs(&id.value)),
+                    };
+                    out.push(format!("{}.b{}={}{}", p, k, bound, dirs(&b.attributes())));
+                }
+                for (k, o) in s.operations().iter().enumerate() {
+                    for (m, pa) in o.parameters().iter().enumerate() { type_ref(&mut out, &format!("{}.o{}.p{}.t", p, k, m), &pa.data_type); }
+                    for (m, pa) in o.return_members().iter().enumerate() { type_ref(&mut out, &format!("{}.o{}.r{}.t", p, k, m), &pa.data_type); }
+                }
+            }
+            Definition::Enum(x) => {
+                let s = x.borrow();
+                if let Some(u) = &s.underlying {
+                    let bound = match &u.definition {
+                        TypeRefDefinition::Patched(_) => format!("prim({})", u.definition().kind()),
+                        TypeRefDefinition::Unpatched(id) => format!("unpatched({})", hs(&id.value)),
+                    };
+                    out.push(format!("{}.u={}{}", p, bound, dirs(&u.attributes())));
+                }
+                for (k, e) in s.enumerators().iter().enumerate() {
+                    if e.fields.is_some() {
+                        for (m, fl) in e.fields().iter().enumerate() { type_ref(&mut out, &format!("{}.e{}.f{}.t", p, k, m), &fl.data_type); }
+                    }
+                }
+            }
+            Definition::CustomType(_) => {}
+            Definition::TypeAlias(x) => { let s = x.borrow(); type_ref(&mut out, &format!("{}.t", p), &s.underlying); }
+        }
+    }
+    out.join(";")
+}
+
+fn thin<T: ?Sized>(r: &T) -> *const u8 { r as *const T as *const u8 }
+
+/// every definition, field, enumerator and operation must be what `find_element` returns for its scoped identifier
+fn retrieve(state: &CompilationState) -> String {
+    let mut failing = vec![];
+    for node in state.ast.as_slice() {
+        if matches!(node, Node::Parameter(_)) { continue; }
+        let Ok(entity) = <&dyn Entity>::try_from(node) else { continue };
+        let id = entity.parser_scoped_identifier();
+        let same = match state.ast.find_element::<dyn Entity>(&id) {
+            Ok(found) => thin(found) == thin(entity),
+            Err(_) => false,
+        };
+        if !same { failing.push(hs(&id)); }
+    }
+    if failing.is_empty() { "retrieve=ok".to_string() } else { failing.sort(); format!("retrieve=fail({})", failing.join(",")) }
+}
+
+/// `c03:find`: bindings and retrieval without the diagnostics
+fn find(state: CompilationState) -> String {
+    let files: Vec<String> = state.files.iter().map(file_bind).collect();
+    format!("{};find:{}", files.join("|"), retrieve(&state))
+}
+
+fn bind(state: CompilationState, options: SliceOptions) -> String {
+    let files: Vec<String> = state.files.iter().map(file_bind).collect();
+    let found = retrieve(&state);
+    let diags = state.diagnostics.into_updated(&state.ast, &state.files, &options);
+    format!("{};find:{} diags={}", files.join("|"), found, codes(&diags))
 }
